@@ -1172,6 +1172,11 @@ def run(tier):
         chk.guard(rule_r2, chk, m, f, cfg, top, states, table)
         chk.guard(rule_r3, chk, m, f, cfg, top, states, table)
         chk.guard(rule_r4, chk, m, f, cfg, top, states, table)
+    from .. import depthrec
+    chk.guard(depthrec.report, chk, prog, 'C08.R10',
+              'no function of the tree core that reads SMT-LIB text recurses over the nesting depth (directly, through helpers, generators, tuple comparison, deepcopy or the generic pickler)',
+              [('nodeio', 'parse_smtlib')],
+              'the reader raises RecursionError instead of returning the nesting structure of a deeply nested input')
     extra = None
     if tier == 'thorough':
         from .. import selftest
